@@ -91,7 +91,7 @@ def unit_formula(h):
     h.requires("gate", t.rep.axis.n >= m.t if isinstance(m, V) else t.rep.axis.n >= z3.RealVal(m))
     kind, res = h.call_method(self, "get_unit_prediction_intervals", t.rep, t.nonrep, alpha, "turnout")
     if kind == "raise":
-        return h.fail("C14.totality_above_the_gate", f"raised {res}")
+        return h.fail("C14.totality_above_the_gate", f"raised {res}", budget_factor=3)
     rows = z3.And(*t.nonrep.axis.facts())
     lower, upper = res.lower, res.upper
     rp_floor = lambda ev: {"target": "verif_replays:unit_interval_floor_replay", "args": ["gaussian"], "check": "result['exc'] is None and result['ok']"}  # noqa: E731
